@@ -23,7 +23,8 @@ reg(Prop(
          ' recursive<T>: copy and move assignment to a moved-from wrapper, std::vector<recursive<T>> insert(n copies) / erase / copy assignment.'
          ' vector<key-tag,3> and dim<key-tag,3> over an element type whose == is finer than its <: agreement with the documented lexicographic comparison and the strict-weak-order axioms over all 64 values.'
          ' tree<int>: every family value attached at depth 1 and 2 of a host tree against every standalone value (== looks below the two nodes, not at where they hang).'
-         ' recursive<double> holding NaN: self comparison, alias, copy, inside a std::vector.',
+         ' recursive<double> holding NaN: self comparison, alias, copy, inside a std::vector.'
+         ' recursive / make_recursive / make_unique_ptr over a JSON-like type that is constructible from an initializer_list of itself.',
     assumptions=COMMON_ASSUMPTIONS + [
         'strong_typedef<uint8_t/uint16_t> arithmetic is accepted by gcc with -Wnarrowing warnings; the expected value is the underlying result converted to the underlying type',
         'operands for which the underlying operator itself is undefined (uint16_t*uint16_t overflowing int) are skipped and counted',
